@@ -11,18 +11,20 @@ META = {
     "level": "model_checking",
     "text": "PeerGrammarServer.tla is a grammar of HTTP/2 client behaviour (HEADERS frames described by ten attributes: stream-id class, "
             ":method, content-type, te, grpc-timeout, :authority / host multiplicity, connection header, -bin metadata, header-list "
-            "size, END_STREAM; plus client RST_STREAM and handler completion) together with the server's admission table ServerAdmit "
+            "size, END_STREAM; plus client RST_STREAM, handler completion without / with a response message, a client that "
+            "withholds flow-control window (SETTINGS_INITIAL_WINDOW_SIZE 16) and WINDOW_UPDATE) together with the server's admission table ServerAdmit "
             "(the checks in the order x/net's framer, http2_server.go operateHeaders and the MaxConcurrentStreams quota apply them, "
             "with the resulting disposition: handler / early abort (HTTP status, grpc-status) / RST_STREAM(code) / connection error). "
             "The property is stated independently of that order (Legal(h); I_NoIllegalHandler, I_MaxStreams, I_ExcessRefused) and TLC "
             "checks that the table implies it for all attribute combinations with <= 3 (thorough: all 124416) deviations, "
             "MaxConcurrentStreams in {1,2} and sequences of <= 3 requests with cancellations and completions (negative controls: "
-            "`<` instead of `<=` in the stream-id check, `>` instead of `>=` in the quota, content-type check dropped). Every "
+            "`<` instead of `<=` in the stream-id check, `>` instead of `>=` in the quota, finished-but-unflushed streams not counted, content-type check dropped). Every "
             "transition of the bounded state graph, seeded random request sequences over the full attribute product, and seeded "
             "byte-level mutations (bit flips, truncation, length / type / flag / stream-id lies, duplicated and swapped frames) of the "
             "serialised client byte streams are executed by a raw HTTP/2 client against a real grpc.Server "
             "(grpc.UnknownServiceHandler recording handler entry / exit, testing/synctest + bufconn); TLC validates every recorded "
-            "step: a handler started only for a Legal request, running handlers <= MaxConcurrentStreams, a Legal request above the cap "
+            "step: a handler started only for a Legal request, streams that are admitted and still open on the wire (handler running or response held back by the client's window) "
+            "<= MaxConcurrentStreams, a Legal request above the cap "
             "answered by RST_STREAM(REFUSED_STREAM), no panic (a crashed driver process is attributed to its behaviour by re-running the "
             "batch one behaviour at a time); the predicted disposition is compared as drift only.",
     "note": "'Illegal stream id' is read as RFC 9113 5.1.1 (even, zero, or not above every id the client already used); several Host "
@@ -61,24 +63,35 @@ def step_of(state_text, label):
         return {"a": "rst", "sid": sid}
     if name == "FinT":
         return {"a": "fin", "sid": sid}
+    if name == "FinMsgT":
+        return {"a": "finmsg", "sid": sid}
+    if name == "WinUpT":
+        return {"a": "winup", "sid": sid}
     raise Inconclusive("unknown action label " + label)
 
 
 def cap_of(state_text):
-    return parse_tla_state(state_text, only={"cap"})["cap"]
+    st = parse_tla_state(state_text, only={"cap", "win"})
+    return [st["cap"], st["win"]]
 
 
 def random_beh(rng):
     steps = []
     nrun = 0
+    win = rng.choice(["normal", "tiny", "tiny"])
     for _ in range(rng.randint(2, 8)):
         r = rng.random()
-        if nrun and r < 0.15:
+        if nrun and r < 0.12:
             steps.append({"a": "rst", "sid": -1, "pick": rng.randint(0, 3)})
             nrun -= 1
-        elif nrun and r < 0.3:
+        elif nrun and r < 0.22:
             steps.append({"a": "fin", "sid": -1, "pick": rng.randint(0, 3)})
             nrun -= 1
+        elif nrun and r < 0.36:
+            steps.append({"a": "finmsg", "sid": -1, "pick": rng.randint(0, 3)})
+            nrun -= 1
+        elif r < 0.42:
+            steps.append({"a": "winup", "sid": -1, "pick": rng.randint(0, 3)})   # skipped by the driver when nothing is blocked
         else:
             st = {"a": "req", "sid": -1, "shuf": rng.randint(1, 1 << 30)}
             p_default = rng.choice([0.55, 0.8, 0.95])
@@ -86,7 +99,7 @@ def random_beh(rng):
                 st[k] = vals[0] if rng.random() < p_default else rng.choice(vals)
             steps.append(st)
             nrun += 1
-    return {"cap": rng.choice([1, 2, 3]), "mut": 0, "steps": steps}
+    return {"cap": rng.choice([1, 2, 3]), "win": win, "mut": 0, "steps": steps}
 
 
 def phase_ok(ctx, tpath, what):
@@ -128,17 +141,21 @@ def run(ctx):
     ctx.mc("PeerGrammarServerMC", ctx.pick("PeerGrammarServerMC.cfg", "PeerGrammarServerMCT.cfg"), workers=ctx.pick(4, 8), timeout=1800)
     ctx.neg("PeerGrammarServerMC", "PeerGrammarServerNeg1.cfg", expect="I_NoIllegalHandler", workers=2)
     ctx.neg("PeerGrammarServerMC", "PeerGrammarServerNeg2.cfg", expect="I_ExcessRefused", workers=2)
+    # a stream whose handler returned but whose response the client's window holds back is forgotten by the quota
+    ctx.neg("PeerGrammarServerMC", "PeerGrammarServerNeg5.cfg", expect="I_ExcessRefused", workers=2)
     if not ctx.quick():
         ctx.neg("PeerGrammarServerMC", "PeerGrammarServerNeg3.cfg", expect="I_NoIllegalHandler", workers=2)
         # the stream-id comparison as coded (against the server's own high-water mark): the model itself shows the finding
         ctx.neg("PeerGrammarServerMC", "PeerGrammarServerCode.cfg", expect="I_NoIllegalHandler", workers=2)
     binary = ctx.go_build("internal/zzverif/c12")
     ctx.assumptions += [
-        "handlers of the driver return as soon as their context is cancelled (so running handlers == active streams at quiescence)",
+        "handlers of the driver return as soon as their context is cancelled; 'active' = admitted streams for which the raw "
+        "client has neither seen END_STREAM / RST_STREAM nor sent RST_STREAM",
         "observations are taken at testing/synctest quiescence plus 1.5 s of virtual time after every step",
     ]
     ctx.cov["rule"] = ("behaviours = edge cover of the TLC state graph of PeerGrammarServerMC (BFS prefix + one transition; requests with "
-                       "<= 2 deviating attributes, <= 3 requests, <= 4 (thorough 5) events incl. cancellations and completions, MaxConcurrentStreams 1 and 2) "
+                       "<= 2 deviating attributes, <= 3 requests, <= 4 (thorough 5) events incl. cancellations and completions, MaxConcurrentStreams 1 and 2, client window normal / 16 bytes with handlers that return after a 4 KB response and "
+                       "client WINDOW_UPDATEs; stratified sample) "
                        "executed step by step by a raw HTTP/2 client against a real grpc.Server; non-trivial = contains a request; "
                        "distinct by step sequence; plus seeded random sequences (2-8 steps, all ten attributes random, shuffled header "
                        "order, MaxConcurrentStreams 1-3) and seeded byte-level mutations of the serialised streams")
@@ -151,13 +168,20 @@ def run(ctx):
         st = step_of(state_text, label)
         st["_cap"] = cap_of(state_text)
         return st
-    raw = ctx.edge_cover(g, step_cap, limit=ctx.pick(2000, 25000))
+    raw = ctx.edge_cover(g, step_cap, limit=None)
+    ctx.cov["behaviours_generated"] -= len(raw)
+    # stratified sample: behaviours with a flow-control-blocked stream (finmsg) are a small part of the graph
+    ctx.rng.shuffle(raw)
+    fm = [b for b in raw if any(st["a"] == "finmsg" for st in b)]
+    rest = [b for b in raw if not any(st["a"] == "finmsg" for st in b)]
+    raw = fm[:ctx.pick(700, 8000)] + rest[:ctx.pick(1800, 20000)]
+    ctx.cov["behaviours_generated"] += len(raw)
     behs = []
     for b in raw:
-        cap = b[0]["_cap"]
-        behs.append({"cap": cap, "mut": 0, "steps": [{k: v for k, v in st.items() if k != "_cap"} for st in b]})
+        cap, win = b[0]["_cap"]
+        behs.append({"cap": cap, "win": win, "mut": 0, "steps": [{k: v for k, v in st.items() if k != "_cap"} for st in b]})
     tpath = os.path.join(ctx.run, "trace-replay.ndjson")
-    reset_fields = lambda b: {"cap": b["cap"], "mut": b.get("mut", 0)}
+    reset_fields = lambda b: {"cap": b["cap"], "mut": b.get("mut", 0), "win": b.get("win", "normal")}
     _peer.run_batched(ctx, binary, "TestVerifC12Replay", behs, tpath, "replay", batch=1000, reset_fields=reset_fields)
     for b in behs:
         ctx.count(b, nontrivial=any(st["a"] == "req" for st in b["steps"]))
